@@ -704,7 +704,7 @@ def sys_ok(c, i, s):
         c.meta["why"] = "malformed pipeline output"
         return False
     g = _cfg(c)
-    benign = c.meta.get("cfg", (0, 0, 0, 0, D0))[4] in BENIGN_OPTS
+    benign = sv[1][0] == ("N", 1)
     pub = b"host/" + g["pub"] + b"/"
     for idx, ((r, o), f) in enumerate(zip(rows, sv[1][1:])):
         if f in (("N", 97), ("N", 96)):
@@ -784,6 +784,12 @@ def pipe_spec_ok(c, i, s):
         return False
     g = _cfg(c)
     _, errs = _files(c)
+    # is the hypothesis benign_host of the confinement theorems met?  — decided by the Coq predicate (benign_host_b, spec component), which must
+    # agree with the generator's two lists
+    c.meta["benign"] = sv[1][0] == ("N", 1)
+    if c.meta["benign"] != (c.meta.get("cfg", (0, 0, 0, 0, D0))[4] in BENIGN_OPTS):
+        c.meta["why"] = "the Coq predicate benign_host_b and the generator disagree about the options %r" % (c.meta.get("cfg", (0, 0, 0, 0, D0))[4],)
+        return False
     page400 = b"host/" + g["errors"] + b"/400.html"
     for idx, ((r, o), f) in enumerate(zip(rows, sv[1][1:])):
         if f == ("N", 97):
@@ -828,7 +834,7 @@ def extra_oracle(c, i):
         return "malformed pipeline output " + i[:100]
     g = _cfg(c)
     default_ext = g["de"] == 1
-    benign = c.meta.get("cfg", (0, 0, 0, 0, D0))[4] in BENIGN_OPTS
+    benign = c.meta.get("benign", c.meta.get("cfg", (0, 0, 0, 0, D0))[4] in BENIGN_OPTS)
     allowed, errs = _files(c)
     pub = b"host/" + g["pub"]
     parent = pub.rsplit(b"/", 1)[0] + b"/"
